@@ -46,6 +46,29 @@ Theorem C02_constants : NPC = SNPC /\ (forall u, unit_factor u = spec_unit_facto
   D_MAX = mkD 32767 SNPC /\ D_MIN = mkD (-32768) 0 /\ D_ZERO = mkD 0 0.
 Proof. exact (conj NPC_eq (conj unit_factor_eq (conj D_MAX_eq (conj D_MIN_eq D_ZERO_eq)))). Qed.
 
+(* compose: integer sum of the u64 fields, no i128 overflow, denotes clamp(+-sum); std::time conversions *)
+Theorem C02_compose_no_overflow : forall d h mi s ms us ns,
+  0 <= d <= U64_MAX -> 0 <= h <= U64_MAX -> 0 <= mi <= U64_MAX -> 0 <= s <= U64_MAX -> 0 <= ms <= U64_MAX ->
+  0 <= us <= U64_MAX -> 0 <= ns <= U64_MAX ->
+  0 <= compose_total d h mi s ms us ns <= I128_MAX /\ in_i128 (- compose_total d h mi s ms us ns).
+Proof. exact compose_total_range. Qed.
+Theorem C02_compose : forall sg d h mi s ms us ns,
+  canon (compose sg d h mi s ms us ns) /\
+  val (compose sg d h mi s ms us ns) =
+    clamp (if sg <? 0 then - compose_total d h mi s ms us ns else compose_total d h mi s ms us ns).
+Proof. exact compose_spec. Qed.
+Theorem C02_compose_total : forall d h mi s ms us ns,
+  compose_total d h mi s ms us ns = (((((d * 24 + h) * 60 + mi) * 60 + s) * 1000 + ms) * 1000 + us) * 1000 + ns.
+Proof. exact compose_total_mixed_radix. Qed.
+Theorem C02_to_std : forall d, canon d ->
+  to_std d = if val d <? 0 then (0, 0) else (val d / 1000000000, val d mod 1000000000).
+Proof. exact to_std_spec. Qed.
+Theorem C02_from_std : forall secs sub, 0 <= secs <= U64_MAX -> 0 <= sub < 1000000000 ->
+  canon (from_std secs sub) /\ val (from_std secs sub) = clamp (secs * 1000000000 + sub).
+Proof. exact from_std_spec. Qed.
+Theorem C02_std_roundtrip : forall d, canon d -> 0 <= val d -> let '(secs, sub) := to_std d in from_std secs sub = d.
+Proof. exact std_roundtrip. Qed.
+
 Example C02_nonvacuous :
   canon (mkD (-2) 5) /\ total_nanoseconds (mkD (-2) 5) = -6311519999999999995 /\
   try_truncated_nanoseconds (mkD (-2) 3155759999999999995) = Some (-3155760000000000005) /\
